@@ -44,6 +44,14 @@ MID = {"name": "mid", "params": [["t", NODEFAULT]], "body": [sub("inner", [P("t"
        "ret": ["list", [Vv("w5"), Vv("ia")]], "subs": [INNER_PLAIN]}
 
 
+INNER_PASS = {"name": "inner", "params": [["a", NODEFAULT], ["b", 3]], "body": [call("inc", [P("b")], "w0")],
+              "ret": ["tuple", [P("a"), Vv("w0")]], "subs": []}  # returns its parameter directly
+MID_PASS = {"name": "mid", "params": [["t", NODEFAULT]],
+            "body": [call("sk0", [], "s0"), sub("inner", [Vv("s0")], ["ia", "ib"]), sub("inner", [C(7), P("t")], ["ja", "jb"]),
+                     sub("inner", [P("t")], ["ka", "kb"])],
+            "ret": ["list", [Vv("ia"), Vv("ib"), Vv("ja"), Vv("jb"), Vv("ka")]], "subs": [INNER_PASS]}
+
+
 def carriers(flag):
     """(name, statements, return spec, subs, expect_build_error)"""
     yield "plain", [call("inc", [P("y")], "r", flag=flag)], ["atom", Vv("r")], [], None
@@ -58,6 +66,9 @@ def carriers(flag):
     yield "sub_single", [sub("inner", [P("y")], "r", flag=flag), call("ident", [Vv("r")], "s")], ["tuple", [Vv("r"), Vv("s")]], [INNER_SINGLE], None
     yield "sub_setup", [sub("inner", [P("y")], "r", flag=flag)], ["atom", Vv("r")], [INNER_SETUP], None
     yield "sub_flagged_inner", [sub("inner", [P("y")], "r", flag=flag)], ["atom", Vv("r")], [INNER_FLAGGED], "RuntimeError"
+    # three levels: the flagged DAG calls a DAG that returns its own parameter, fed by a setup result / a constant / a parameter
+    yield "sub_three_levels_passthrough", [sub("mid", [P("y")], "r", flag=flag), call("ident", [Vv("r", 0)], "s")], \
+        ["tuple", [Vv("r", 0), Vv("r", 1), Vv("r", 2), Vv("r", 3), Vv("r", 4), Vv("s")]], [MID_PASS], None
     yield "sub_two_levels", [sub("mid", [P("y")], "r", flag=flag), call("ident", [Vv("r", 0)], "s")], ["tuple", [Vv("r", 0), Vv("r", 1), Vv("s")]], [MID], None
 
 
@@ -118,7 +129,7 @@ def run_one(acc, c):
             return
         acc.violation(V("missing_build_error", "flag on a nested DAG that already has a flagged node was accepted (documented: RuntimeError)"), case, (), None, ir.source(prog))
         return
-    has_setup = "setup" in c["carrier"]
+    has_setup = "setup" in c["carrier"] or "passthrough" in c["carrier"]
     run_program(acc, case, prog, INPUTS, ["mc1", "mc3"], (False, True), explore_all=not has_setup, stateful_setup=has_setup, max_execs=200)
     acc.mark_nontrivial((c["flag"], c["carrier"]))
     if acc.cases <= 2:
